@@ -256,9 +256,18 @@ def hist_es(ctx, hist, loc, depth):
                     got[0] = ctx.fresh_real("alias")
         # final read-back of every level
         for i in range(len(ref.w)):
-            got = es.get_variable_values(**_kw(loc, i))
+            try:
+                got = es.get_variable_values(**_kw(loc, i))
+            except KeyError:
+                ctx.check("window-level-present", False, case)
+                continue
             for j in range(n):
                 ctx.check("window-value", lift(got[j]) == lift(ref.w[i][j]), case)
+        try:
+            es.get_variable_values(**_kw(loc, len(ref.w)))
+            ctx.check("window-depth", False, case)
+        except KeyError:
+            ctx.check("window-depth", True, case)
     m = ctx.reach("end")
     if m is not None and _clean(ctx) and _h(hist) % 7 == 0:
         ctx.validate_replay("float-run", case, model=m)
